@@ -82,7 +82,7 @@ Proof.
   intros [Scodes Sreqs Scb Sub Srts Srb Srot Snr Saud] Hdone Ht.
   destruct Ht as [o x Hx Hns | pl0 cr0 n0 sc0 t0 Hrt0 Hn0 | cl uri scopes nonce chal ax | n sub stamp q Hq | n q Hq Hd
                  | pl f cr cd uri ver q c Hcr Hfc Hp Hu Hch Hpub | pl cr n scopes t c sc Hrt Hfc Hr Hfl Hp Hn
-                 | cl | nrev].
+                 | cl | cl | nrev].
   - (* inert *)
     assert (Hl : ledger_step g o x = g).
     { destruct o, x as [[?|]|[|]| | | | | | | |]; try contradiction; reflexivity. }
@@ -248,6 +248,10 @@ Proof.
     + intros m [<- | Hin]; [lia|]. apply Srot in Hin. lia.
     + intros t1 [<- | Hin]; [exact Haud | apply filter_In in Hin as [Hin _]; now apply Saud].
   - (* refresh grant withdrawn *)
+    split; [reflexivity|]. split; [reflexivity|]. cbn [ledger_step].
+    constructor; cbn [g_reqs g_codes g_used g_rts g_rot g_norefresh reqs codes rtoks next ncode norefresh]; try assumption.
+    now rewrite Snr.
+  - (* all grants withdrawn *)
     split; [reflexivity|]. split; [reflexivity|]. cbn [ledger_step].
     constructor; cbn [g_reqs g_codes g_used g_rts g_rot g_norefresh reqs codes rtoks next ncode norefresh]; try assumption.
     now rewrite Snr.
